@@ -43,12 +43,12 @@ type OViol struct {
 
 // Scenario is a closed concurrent program: a deterministic builder of instances.
 type Scenario struct {
-	Seq            *SeqSpec // non-nil: an E2 (sequence search) job instead of a schedule exploration
+	Seq *SeqSpec // non-nil: an E2 (sequence search) job instead of a schedule exploration
 	// PostRun is called after every execution (complete or not); a non-empty result is a
 	// violation of kind "race" observed during that execution.
-	PostRun func() string
-	Classes        int      // oracle classes that decide the property this scenario is run for
-	ExpectOutcomes int      // vacuity guard: at least this many distinct outcomes are expected
+	PostRun        func() string
+	Classes        int // oracle classes that decide the property this scenario is run for
+	ExpectOutcomes int // vacuity guard: at least this many distinct outcomes are expected
 	Name           string
 	Prop           string // property the scenario family belongs to
 	New            func() *Instance
